@@ -1,6 +1,7 @@
 import Originium.Model.LSM
 import Originium.Model.Kway
 import Originium.Model.LevelTie
+import Originium.Model.KwayTie
 /-! # C09 — compaction never changes the answer of any permitted read
 
 Compacting any set of tables, with any version-discard watermark, yields tables that answer every
@@ -163,6 +164,41 @@ theorem C09_code_compaction_order_L0 (needLevel : Bool) (l0 l1 : List Nat) (newI
   · rw [LevelTie.compactL0_table]; rfl
   · rw [LevelTie.compactL0_table]; rfl
 
+/-! ### The Go code itself: `kway.merge`, translated from `/repo/pkg/kway/merge.go` on every run -/
+
+/-- the translated `kway.MergeVersions` (`merge` with `keepTombstone = true`) is the specification `mergeVersions`: for
+    strictly sorted input lists (tables and data blocks are), with container/heap taken as a sorted list and
+    `slices.SortFunc` as any function that sorts lists of distinct keys -/
+theorem C09_code_merge_versions (ksort : List E → List E)
+    (hk : ∀ l : List E, (l.map (·.key)).Nodup → SortedE vlt (ksort l) ∧ ∀ x, x ∈ ksort l ↔ x ∈ l)
+    (dflt : E) (ins : List (List E)) (hs : ∀ l ∈ ins, SortedE vlt l) :
+    GenKway.merge (fun (e : E) => e.key) (fun e => e.tomb) Kway.less ksort dflt true ins = mergeVersions ins :=
+  KwayTie.merge_eq ksort hk dflt ins hs
+
+/-- the two translated steps of a compaction in the order `compactLN` / `compactL0` run them (`C09_code_compaction_order`):
+    the translated `discardStaleEntries` applied to the translated `MergeVersions` of the input blocks answers every
+    permitted read as the inputs did, next to any other tables -/
+theorem C09_code_merge_then_discard (ksort sort : List E → List E)
+    (hk : ∀ l : List E, (l.map (·.key)).Nodup → SortedE vlt (ksort l) ∧ ∀ x, x ∈ ksort l ↔ x ∈ l)
+    (hsort : ∀ l x, x ∈ sort l ↔ x ∈ l) (dflt : E) (low : Nat)
+    (ins : List (List E)) (hs : ∀ l ∈ ins, SortedE vlt l) (hc : Consistent ins.flatten) (rest : List E) (k : Bytes) (r : Nat)
+    (hr : low ≤ r) (res : Option E) (hn : IsNewest (rest ++ ins.flatten) k r res) :
+    IsNewest (rest ++ GenLevel.discardStale sort low
+      (GenKway.merge (fun (e : E) => e.key) (fun e => e.tomb) Kway.less ksort dflt true ins)) k r res := by
+  rw [KwayTie.merge_eq ksort hk dflt ins hs]
+  exact C09_code_preserves sort hsort low ins hc rest k r hr res hn
+
+/-- non-vacuity: the hypotheses on the sort functions are met by insertion sort / the identity, and the translated merge
+    computes on a concrete input (the later list wins for `a@1`) -/
+example : ∀ l : List E, (l.map (·.key)).Nodup → SortedE vlt (KwayTie.isort l) ∧ ∀ x, x ∈ KwayTie.isort l ↔ x ∈ l :=
+  KwayTie.isort_spec
+example :
+    let a1 : E := ⟨⟨[97], 1⟩, [1], false, 1⟩
+    let a1' : E := ⟨⟨[97], 1⟩, [9], false, 1⟩
+    let b2 : E := ⟨⟨[98], 2⟩, [2], false, 2⟩
+    GenKway.merge (fun (e : E) => e.key) (fun e => e.tomb) Kway.less KwayTie.isort a1 true [[a1, b2], [a1']] = [a1', b2] := by
+  decide
+
 #print axioms C09_preserves
 #print axioms C09_only_shadowed
 #print axioms C09_no_invention
@@ -173,4 +209,6 @@ theorem C09_code_compaction_order_L0 (needLevel : Bool) (l0 l1 : List Nat) (newI
 #print axioms C09_code_preserves
 #print axioms C09_code_compaction_order
 #print axioms C09_code_compaction_order_L0
+#print axioms C09_code_merge_versions
+#print axioms C09_code_merge_then_discard
 end Props
